@@ -134,6 +134,8 @@ def specs(deep: bool) -> list[dict]:
         # tiny constrained mazes: equal connection structures recur across seeds (anything memoised per maze value would leak between datasets)
         dict(name="n", grid_n=3, n_mazes=12, seed=11, maze_ctor_kwargs=dict(accessible_cells=3)),
         dict(name="o", grid_n=3, n_mazes=12, seed=17, maze_ctor_kwargs=dict(max_tree_depth=2)),
+        # seed 0 is a seed like any other
+        dict(name="z", grid_n=3, n_mazes=4, seed=0, maze_ctor="gen_dfs"),
         # a fractional argument (resolved against the grid size inside the generator; the request must keep the fraction)
         dict(name="p", grid_n=4, n_mazes=4, seed=5, maze_ctor_kwargs=dict(accessible_cells=0.5)),
     ]
@@ -150,7 +152,7 @@ def perturb(hr: _pyrandom.Random, pool: list[dict], focus: dict | None = None) -
     from maze_dataset import MazeDataset
     acts = []
     for _ in range(hr.randint(0, 12)):
-        a = hr.choice(["py", "np", "torch", "np_gen", "seed_py", "seed_np", "seed_torch", "generate", "from_config", "construct", "np_state"])
+        a = hr.choice(["py", "np", "torch", "np_gen", "seed_py", "seed_np", "seed_torch", "generate", "from_config", "construct", "np_state", "failing_call"])
         acts.append(a)
         if a == "py":
             for _ in range(hr.randint(1, 5)): random.random()
@@ -180,6 +182,32 @@ def perturb(hr: _pyrandom.Random, pool: list[dict], focus: dict | None = None) -
             except ValueError: pass
         elif a == "construct":
             s = dict(hr.choice(pool)); s["seed"] = hr.randrange(10**6); make_cfg(s)
+        elif a == "failing_call":
+            # library calls that RAISE and whose exception the caller handles: whatever they were in the middle of must not leak into later
+            # generations (flags left switched, half-finished reseeding, ...)
+            which = hr.randrange(4)
+            try:
+                if which == 0:      # filter a hand-built dataset whose generator is not a registered one (its config cannot be reloaded)
+                    from maze_dataset import MazeDatasetConfig
+                    def _not_registered(grid_shape, **kw):
+                        from maze_dataset.generation.generators import LatticeMazeGenerators as LG
+                        return LG.gen_dfs(grid_shape)
+                    d0 = MazeDataset.generate(make_cfg(dict(name="hb", grid_n=3, n_mazes=3, seed=hr.randrange(10**6))))
+                    bad = MazeDataset(MazeDatasetConfig(name="hb", grid_n=3, n_mazes=3, maze_ctor=_not_registered), d0.mazes)
+                    bad.filter_by.path_length(min_length=1)
+                elif which == 1:    # a config that lists an unknown filter
+                    c = make_cfg(dict(name="uf", grid_n=3, n_mazes=3, applied_filters=[dict(name="no_such_filter", kwargs={})]))
+                    MazeDataset.from_config(c, load_local=False, save_local=False, do_download=False)
+                elif which == 2:    # loading something that is not a dataset
+                    MazeDataset.load({"__format__": "MazeDataset", "cfg": {"broken": True}, "mazes": [], "generation_metadata_collected": None})
+                else:               # deep copy of a dataset whose config cannot be reloaded
+                    import copy as _copy
+                    from maze_dataset import MazeDatasetConfig
+                    d0 = MazeDataset.generate(make_cfg(dict(name="hc", grid_n=3, n_mazes=2, seed=hr.randrange(10**6))))
+                    d0.cfg.applied_filters.append(dict(name="x", kwargs={}))       # a record without "args": reload raises
+                    _copy.deepcopy(d0)
+            except Exception:
+                pass
         elif a == "np_state":
             np.random.set_state(np.random.RandomState(hr.randrange(10**6)).get_state())
     return acts
